@@ -47,7 +47,7 @@ Proof.
   assert (halted = false) as -> by (vm_compute in E; congruence).
   exists st, nodes, sc, pv. split; [reflexivity|].
   apply (new_board_search_is_spec_minimax gz never false 0 (fun n H => H) kr_pos White 0 1 2 st nodes sc pv);
-    [exact kr_pos_wf|left; reflexivity|exact gz_ok|unfold qh; lia|apply leaves_ok_noq; reflexivity|exact E].
+    [exact kr_pos_wf|left; reflexivity|vm_compute; discriminate|exact gz_ok|unfold qh; lia|apply leaves_ok_noq; reflexivity|exact E].
 Qed.
 
 (** * the depth-0 corner *)
@@ -134,7 +134,7 @@ Proof.
   assert (Hpl : played_board gz kr_pos White 0 1 (kshuffle ++ kshuffle) h b).
   { change (kshuffle ++ kshuffle) with ([] ++ (kshuffle ++ kshuffle)). eapply play_with_played_gen; [|exact E].
     constructor. reflexivity. }
-  destruct (played_game gz gz_ok kr_pos White 0 1 kr_pos_wf (or_introl eq_refl) _ h b Hpl) as [HGame _].
+  destruct (played_game gz gz_ok kr_pos White 0 1 kr_pos_wf (or_introl eq_refl) ltac:(vm_compute; discriminate) _ h b Hpl) as [HGame _].
   fold dgs in HGame.
   assert (Hwf : wf h b) by apply HGame.
   assert (HRG0 : RG gz (abs h b) dgs).
